@@ -48,6 +48,7 @@ CRATE_FINDERS = {
     "config": ("src/core/mod.rs", "units/config/finder_test.rs"),
     "index": ("src/core/mod.rs", "units/index/finder_test.rs"),
     "analyze": ("src/app/analyze.rs", "units/analyze/finder_test.rs"),
+    "runexec": ("src/app/run.rs", "units/runexec/finder_test.rs"),
 }
 CACHE = os.path.join(U.VERIF, ".cache")
 
